@@ -1985,6 +1985,23 @@ class PyCdlib:
                 ino = inode.Inode()
                 ino.parse(entry_extent, entry.length(), self._cdfp,
                           self.logical_block_size)
+
+                # This boot file is 'hidden': there is no Directory Record
+                # that says how long it is, and the sector count of the El
+                # Torito Entry is only the amount of data that is loaded at
+                # boot time, which may be less than the file.  If the file
+                # carries a valid Boot Info Table, that has the real length.
+                orig = self._cdfp.tell()
+                self._seek_to_extent(entry_extent)
+                header = self._cdfp.read(8 + eltorito.EltoritoBootInfoTable.header_length())
+                bi_table = eltorito.EltoritoBootInfoTable()
+                room = (self.pvd.space_size - entry_extent) * self.logical_block_size
+                if len(header) == 24 and bi_table.parse(self.pvd, header[8:], ino) and ino.data_length < bi_table.orig_len <= room:
+                    self._seek_to_extent(entry_extent)
+                    if self._calculate_eltorito_boot_info_table_csum(self._cdfp, bi_table.orig_len) == bi_table.csum:
+                        ino.data_length = bi_table.orig_len
+                self._cdfp.seek(orig)
+
                 extent_to_inode[entry_extent] = ino
                 self.inodes.append(ino)
 
